@@ -150,6 +150,12 @@ PatchApplied(recs, a, r, keys) ==
         IN later \/ IF kv.k \in Builtin THEN r.recs[j].f[kv.k] = kv.v
                     ELSE (kv.v # NoneV => r.recs[j].attrs[kv.k] = kv.v)
 
+\* "of no other record" also holds for records that do not exist yet: an auto-created record carries only the
+\* dynamic attributes its own creating call names (nothing written to another record earlier shows through)
+FreshRecordHasOnlyNamedAttributes(recs, a, r, keys) ==
+  Len(r.recs) > Len(recs) =>
+     \A i \in (Len(recs) + 1)..Len(r.recs) : \A k \in keys : r.recs[i].attrs[k] # NoneV => k \in Touched(a)
+
 LookupNeverGrows(recs, a, r) ==
   /\ IsLookup(a) => Len(r.recs) = Len(recs)
   /\ (IsLookup(a) /\ (a.op = "match_incoming" => Len(a.patch) = 0)) => r.recs = recs
@@ -160,6 +166,7 @@ StepOK(recs, a, r, keys) ==
   /\ SameAddressSameId(recs, a, r)
   /\ Frame(recs, a, r, keys)
   /\ PatchApplied(recs, a, r, keys)
+  /\ FreshRecordHasOnlyNamedAttributes(recs, a, r, keys)
   /\ LookupNeverGrows(recs, a, r)
 
 \* name of the first clause that fails (used by trace validation for total verdicts)
@@ -169,6 +176,7 @@ WhyNot(recs, a, r, keys) ==
   ELSE IF ~SameAddressSameId(recs, a, r) THEN "SameAddressSameId"
   ELSE IF ~Frame(recs, a, r, keys) THEN "Frame"
   ELSE IF ~PatchApplied(recs, a, r, keys) THEN "PatchApplied"
+  ELSE IF ~FreshRecordHasOnlyNamedAttributes(recs, a, r, keys) THEN "FreshRecordHasOnlyNamedAttributes"
   ELSE IF ~LookupNeverGrows(recs, a, r) THEN "LookupNeverGrows"
   ELSE "ok"
 =============================================================================
